@@ -1021,3 +1021,36 @@ func asBool(o Object) Boolean {
 //@ loop 1 back-when [C05.hex.space] b <= 32 ==> i == prev(i) && out == prev(out)
 //@ loop 1 back-when [C05.hex.digit] b > 32 ==> specHexVal(b) != 255 && i == prev(i) + 1 && out == prev(out)*16 + specHexVal(b)
 //@ ensures [C05.hex.mode] s.eexec == old(s.eexec)
+
+// ] and cleartomark (PLRM 8.2): the operands above the TOPMOST mark.
+//@ define isMark(o) = o == theMark
+
+//@ define topMark(intp, m) = 0 <= m && m < old(depth(intp)) && isMark(old(intp.Stack[m])) && (forall j :: m < j && j < old(depth(intp)) ==> !isMark(old(intp.Stack[j])))
+//@ func bListEnd
+//@ ensures [C02.listend.nomark] (forall j :: 0 <= j && j < old(depth(intp)) ==> !isMark(old(intp.Stack[j]))) ==> isPSErr(result, eUnmatchedmark) && depth(intp) == old(depth(intp))
+//@ ensures [C02.listend.mark] result == nil ==> depth(intp) >= 1 && depth(intp) <= old(depth(intp)) && (forall m :: m == depth(intp) - 1 ==> isMark(old(intp.Stack[m])))
+//@ ensures [C02.listend.topmost] result == nil ==> (forall j :: depth(intp) - 1 < j && j < old(depth(intp)) ==> !isMark(old(intp.Stack[j])))
+//@ ensures [C02.listend.array] result == nil ==> isType(top(intp, 0), Array) && len(top(intp, 0).(Array)) == old(depth(intp)) - depth(intp) && (forall j :: 0 <= j && j < len(top(intp, 0).(Array)) ==> (forall m :: m == depth(intp) + j ==> top(intp, 0).(Array)[j] == old(intp.Stack[m])))
+//@ ensures [C02.listend.frame] result == nil ==> (forall j :: 0 <= j && j < depth(intp) - 1 ==> intp.Stack[j] == old(intp.Stack[j]))
+//@ ensures [C02.listend.found] (exists m :: 0 <= m && m < old(depth(intp)) && isMark(old(intp.Stack[m]))) ==> result == nil
+//@ loop 1 invariant [C02.listend] -1 <= i && i < n && n == old(depth(intp)) && sameslice(intp.Stack, old(intp.Stack)) && (forall j :: i < j && j < n ==> !isMark(intp.Stack[j])) && (forall j :: 0 <= j && j < n ==> intp.Stack[j] == old(intp.Stack[j]))
+
+//@ func bCleartomark
+//@ ensures [C02.cleartomark.nomark] (forall j :: 0 <= j && j < old(depth(intp)) ==> !isMark(old(intp.Stack[j]))) ==> isPSErr(result, eUnmatchedmark) && depth(intp) == old(depth(intp))
+//@ ensures [C02.cleartomark.mark] result == nil ==> depth(intp) < old(depth(intp)) && (forall m :: m == depth(intp) ==> isMark(old(intp.Stack[m])))
+//@ ensures [C02.cleartomark.topmost] result == nil ==> (forall j :: depth(intp) < j && j < old(depth(intp)) ==> !isMark(old(intp.Stack[j])))
+//@ ensures [C02.cleartomark.frame] result == nil ==> (forall j :: 0 <= j && j < depth(intp) ==> intp.Stack[j] == old(intp.Stack[j]))
+//@ ensures [C02.cleartomark.found] (exists m :: 0 <= m && m < old(depth(intp)) && isMark(old(intp.Stack[m]))) ==> result == nil
+//@ loop 1 invariant [C02.cleartomark] -1 <= k && k < old(depth(intp)) && sameslice(intp.Stack, old(intp.Stack)) && (forall j :: k < j && j < old(depth(intp)) ==> !isMark(intp.Stack[j])) && (forall j :: 0 <= j && j < old(depth(intp)) ==> intp.Stack[j] == old(intp.Stack[j]))
+
+// >> (PLRM 8.2): the key/value pairs above the topmost mark become a new
+// dictionary; keys must be names, an odd number of operands is a rangecheck.
+//@ func bDictEnd
+//@ ensures [C02.dictend.nomark] (forall j :: 0 <= j && j < old(depth(intp)) ==> !isMark(old(intp.Stack[j]))) ==> isPSErr(result, eUnmatchedmark) && depth(intp) == old(depth(intp))
+//@ ensures [C02.dictend.mark] result == nil ==> depth(intp) >= 1 && depth(intp) <= old(depth(intp)) && (forall m :: m == depth(intp) - 1 ==> isMark(old(intp.Stack[m]))) && (old(depth(intp)) - depth(intp)) % 2 == 0
+//@ ensures [C02.dictend.topmost] result == nil ==> (forall j :: depth(intp) - 1 < j && j < old(depth(intp)) ==> !isMark(old(intp.Stack[j])))
+//@ ensures [C02.dictend.dict] result == nil ==> isType(top(intp, 0), Dict) && fresh(top(intp, 0).(Dict))
+//@ ensures [C02.dictend.frame] result == nil ==> (forall j :: 0 <= j && j < depth(intp) - 1 ==> intp.Stack[j] == old(intp.Stack[j]))
+//@ ensures [C02.dictend.odd] (exists m :: 0 <= m && m < old(depth(intp)) && isMark(old(intp.Stack[m])) && (forall j :: m < j && j < old(depth(intp)) ==> !isMark(old(intp.Stack[j]))) && (old(depth(intp)) - m) % 2 == 0) ==> isPSErr(result, eRangecheck)
+//@ loop 1 invariant [C02.dictend] -1 <= i && i < n && n == old(depth(intp)) && markPos == -1 && sameslice(intp.Stack, old(intp.Stack)) && (forall j :: i < j && j < n ==> !isMark(intp.Stack[j])) && (forall j :: 0 <= j && j < n ==> intp.Stack[j] == old(intp.Stack[j]))
+//@ loop 2 invariant [C02.dictend] n == old(depth(intp)) && 0 <= markPos && markPos < n && (n - markPos) % 2 == 1 && markPos < i && i <= n && (i - markPos) % 2 == 1 && d != nil && fresh(d) && sameslice(intp.Stack, old(intp.Stack)) && isMark(intp.Stack[markPos]) && (forall j :: markPos < j && j < n ==> !isMark(intp.Stack[j])) && (forall j :: 0 <= j && j < n ==> intp.Stack[j] == old(intp.Stack[j]))
